@@ -234,7 +234,7 @@ def run(ctx):
     progs = programs(ctx.tier)
     ctx.rule('R02.1', 'for every command program (bounded length, symbolic numbers) the parsed segment list equals the SVG semantics: '
                       'abs/rel operands, implicit repetition, S/T reflection and fallback, closepath, zero-radius arcs', len(progs))
-    ctx.rule('R02.2', 'dispatch exhaustiveness: ladder letters == UPPERCASE, COMMANDS == upper+lower, COMMAND_RE class == COMMANDS', 3)
+    ctx.rule('R02.2', 'dispatch exhaustiveness: ladder letters == UPPERCASE, COMMANDS == upper+lower (sets of single letters), COMMAND_RE class == COMMANDS', 4)
     ctx.rule('R02.8', 'lexer: L(FLOAT_RE) == SVG number language; commands cannot occur inside numbers; arc operands are tokenised '
                       'with single-character flags for both A and a', 4)
     # ------------------------------------------------------------------ R02.1
@@ -280,12 +280,27 @@ def run(ctx):
                 and isinstance(n.comparators[0], ast.Constant) and isinstance(n.comparators[0].value, str):
             ladder.add(n.comparators[0].value)
 
+    kinds = {}
+
     def const_set(name):
+        """value of a module constant that is used as the right operand of `in`"""
+        from svtstatic.interp import Interp, Trace, Env
         e = pm.globals.get(name)
-        if isinstance(e, ast.Call) and call_name(e) == 'set' and isinstance(e.args[0], ast.Constant):
-            return set(e.args[0].value)
-        raise AnchorMissing('path.%s = set("...")' % name)
+        if e is None:
+            raise AnchorMissing('path.%s' % name)
+        try:
+            v = Interp(mdl, Trace([]), {}).eval(e, Env(module=pm))
+        except Undecidable as ex:
+            raise AnchorMissing('path.%s is not a constant collection (%s)' % (name, ex))
+        kinds[name] = type(v).__name__
+        if isinstance(v, (set, frozenset, tuple, list, str)):
+            return set(v)
+        raise AnchorMissing('path.%s is a %s' % (name, type(v).__name__))
     upper, commands = const_set('UPPERCASE'), const_set('COMMANDS')
+    strs = [n for n, k in kinds.items() if k == 'str']
+    ctx.record('R02.2', 'path', 'COMMANDS / UPPERCASE are collections of single letters (not str)', not strs,
+               detail='' if not strs else '%s is a str: `x in %s` is a substring test, which accepts the empty chunk between two adjacent command '
+               'letters (and multi-letter chunks) as a command' % (strs[0], strs[0]), where='svgpathtools/path.py')
     ctx.record('R02.2', fi.qualname, 'ladder letters == UPPERCASE', ladder == upper == set(ARITY),
                detail='ladder=%s UPPERCASE=%s' % (sorted(ladder), sorted(upper)), where=where(fi))
     ctx.record('R02.2', 'path', 'COMMANDS == UPPERCASE + lower case', commands == upper | {c.lower() for c in upper},
